@@ -68,7 +68,19 @@ func H_C16_TaprootSignVerify() {
 	bad := append([]byte{}, sig...)
 	m2 := m
 	pk2 := pk
-	switch vsym.Choose("perturb", 5) {
+	switch vsym.Choose("perturb", 6) {
+	case 5: // the twin signature whose nonce point is -R (odd Y, same x): s' = 2*e*d - s
+		d := group.NewScalar()
+		vsym.Assume(d.UnmarshalBinary(sk) == nil)
+		if !d.ActOnBase().(*curve.Secp256k1Point).HasEvenY() {
+			d.Negate()
+		}
+		e := group.NewScalar().SetNat(new(saferith.Nat).SetBytes(refTagged("BIP0340/challenge", sig[:32], pk, m)))
+		two := group.NewScalar().SetNat(new(saferith.Nat).SetUint64(2))
+		s0 := group.NewScalar()
+		vsym.Assume(s0.UnmarshalBinary(sig[32:]) == nil)
+		twin, _ := two.Mul(e).Mul(d).Sub(s0).MarshalBinary()
+		copy(bad[32:], twin)
 	case 0: // another s
 		other, _ := group.NewScalar().SetNat(new(saferith.Nat).SetUint64(12345)).MarshalBinary()
 		copy(bad[32:], other)
